@@ -1,0 +1,45 @@
+//go:build verif
+
+package template
+
+// Verification hooks (build tag "verif" only): thin wrappers that let a test
+// harness pass run-time strings where the public API only admits untyped
+// string constants. They call the real functions unchanged.
+
+func verifConstants(ss []string) []stringConstant {
+	out := make([]stringConstant, 0, len(ss))
+	for _, s := range ss {
+		out = append(out, stringConstant(s))
+	}
+	return out
+}
+
+// VerifTrustedSourceFromConstantDir calls TrustedSourceFromConstantDir.
+func VerifTrustedSourceFromConstantDir(dir string, src TrustedSource, filename string) (TrustedSource, error) {
+	return TrustedSourceFromConstantDir(stringConstant(dir), src, filename)
+}
+
+// VerifParse calls (*Template).Parse.
+func (t *Template) VerifParse(text string) (*Template, error) {
+	return t.Parse(stringConstant(text))
+}
+
+// VerifParseFiles calls (*Template).ParseFiles.
+func (t *Template) VerifParseFiles(filenames ...string) (*Template, error) {
+	return t.ParseFiles(verifConstants(filenames)...)
+}
+
+// VerifParseGlob calls (*Template).ParseGlob.
+func (t *Template) VerifParseGlob(pattern string) (*Template, error) {
+	return t.ParseGlob(stringConstant(pattern))
+}
+
+// VerifParseFiles calls ParseFiles.
+func VerifParseFiles(filenames ...string) (*Template, error) {
+	return ParseFiles(verifConstants(filenames)...)
+}
+
+// VerifParseGlob calls ParseGlob.
+func VerifParseGlob(pattern string) (*Template, error) {
+	return ParseGlob(stringConstant(pattern))
+}
